@@ -563,8 +563,13 @@ class Interp:
         except ValueError:
             return None, None
         ls = c.loops.get(k)
+        fp = extract.loop_fingerprint(s)
+        if ls is None or ls.fingerprint != fp:
+            # loops moved relative to each other: attach by header text when that is unambiguous
+            same = [x for x in c.loops.values() if x.fingerprint == fp]
+            if len(same) == 1 and sum(1 for l in loops if extract.loop_fingerprint(l) == fp) == 1:
+                ls = same[0]
         if ls is not None:
-            fp = extract.loop_fingerprint(s)
             if ls.fingerprint != fp:
                 raise EngineError(f'{c.key}: loop {k} fingerprint changed: contract has '
                                   f'{ls.fingerprint!r}, source has {fp!r}')
@@ -988,7 +993,7 @@ class Interp:
     def coerce_local(self, v, kind):
         if isinstance(v, VList) and v.ek is None and isinstance(kind, KList):
             v.ek = kind.elem
-            v.arr = z3.K(z3.IntSort(), default_term(kind.elem))
+            v.arr = empty_array(kind.elem)
         elif isinstance(v, VSet) and v.ek is None and isinstance(kind, KSet):
             v.ek = kind.elem
             v.dom = z3.K(kind.elem.sort(), z3.BoolVal(False))
